@@ -9,6 +9,8 @@ cd "$WT" || exit 2
 git checkout -q -- . 
 DC=$WT/out/demo_confirm
 rm -rf "$DC"; mkdir -p "$DC/src"
+JIFF_DEP='{ path = "../..", features = ["static", "tzdb-bundle-always"] }'
+[ -n "${DEMO_JIFF_DEP:-}" ] && JIFF_DEP=$DEMO_JIFF_DEP
 cat > "$DC/Cargo.toml" <<EOT
 [package]
 name = "demo_confirm"
@@ -16,10 +18,11 @@ version = "0.0.0"
 edition = "2021"
 [workspace]
 [dependencies]
-jiff = { path = "../..", features = ["static", "tzdb-bundle-always"] }
+jiff = $JIFF_DEP
 EOT
 cp "$WT/Cargo.lock" "$DC/" 2>/dev/null
 cp "$V/demo.rs" "$DC/src/main.rs"
+# DEMO_JIFF_DEP: the dependency table for jiff in the demo crate (e.g. a build without the std feature)
 # DEMO_RUSTFLAGS: flags for building the demo only (e.g. --cfg jiff_verif when the demo needs the virtual clock)
 # DEMO_RUN: full command for running the demo (default: cargo run --offline --release -q), e.g. a Miri run for a 32-bit target
 run_demo() { (cd "$DC" && RUSTFLAGS="${DEMO_RUSTFLAGS:-}" ${DEMO_RUN:-cargo run --offline --release -q} >"$DC/out.$1" 2>&1; echo $?); }
